@@ -178,6 +178,9 @@ class Kind(object):
     name = "?"
     idempotent = True      # compute twice without a fill in between gives equal results
     has_model = True
+    # results are new objects: the driver updates the context of every result in place as soon as
+    # it has received it (as downstream lena elements do) and judges the snapshot taken before
+    fresh_results = True
 
     def draw_cfg(self, tape):
         return {}
@@ -444,7 +447,7 @@ class KVectorize(Kind):
     name = "Vectorize"
 
     def draw_cfg(self, tape):
-        inner = tape.choice(["Sum", "DSum", "Mean", "Count", "list"], "inner")
+        inner = tape.choice(["Sum", "DSum", "Mean", "Count", "list", "StoreItems"], "inner")
         return {"inner": inner, "dim": 2 + tape.draw(2, "dim"),
                 "family": "wild" if inner == "DSum" and tape.draw(2, "w") else
                 tape.choice(["int", "dyadic"], "family")}
@@ -459,6 +462,9 @@ class KVectorize(Kind):
             return lena.math.Vectorize(lena.math.Mean(), dim=cfg["dim"])
         if inner == "Count":
             return lena.math.Vectorize(lena.flow.Count(), dim=cfg["dim"])
+        if inner == "StoreItems":
+            # the component accumulators yield one result per filled value
+            return lena.math.Vectorize(lena.flow.StoreFilled(yield_as_a_group=False), dim=cfg["dim"])
         return lena.math.Vectorize([lena.math.Sum(), lena.math.Mean(pass_on_empty=False), lena.math.DSum()][:cfg["dim"]])
 
     def draw_data(self, tape, cfg, serial):
@@ -469,6 +475,21 @@ class KVectorize(Kind):
         n = len(hist)
         dim = cfg["dim"]
         kinds = [inner] * dim if inner != "list" else ["Sum", "Mean", "DSum"][:dim]
+        if inner == "StoreItems":
+            if outcome[0] != "ok":
+                return ("exception", "compute raised %r" % (outcome[1],))
+            res_ = outcome[1]
+            if len(res_) != n:
+                return ("number-of-results", "%d values were filled, %d results came out" % (n, len(res_)))
+            for i, r in enumerate(res_):
+                data, ctx = split_result(r)
+                if data != tuple(hist[i][0]):
+                    return ("value", "result %d is %r, the components of the %d-th filled value are %r"
+                            % (i, summarize(data), i, hist[i][0]))
+                if not expect_ctx_optional(True, ctx, last_ctx(hist)):
+                    return ("context", "result %d of Vectorize came with context %r; the last filled "
+                            "context is %r" % (i, summarize(ctx), summarize(last_ctx(hist))))
+            return None
         if n == 0 and "Mean" in kinds:
             if outcome[0] != "raise" or not isinstance(outcome[1], lena.core.LenaZeroDivisionError):
                 return ("empty", "an empty inner Mean must raise LenaZeroDivisionError, got %r"
@@ -507,6 +528,7 @@ class KVectorize(Kind):
 
 class KStore(Kind):
     name = "StoreFilled"
+    fresh_results = False     # yields the filled values themselves
 
     def draw_cfg(self, tape):
         return {"group": bool(tape.draw(2, "as-group"))}
@@ -534,6 +556,7 @@ class KStore(Kind):
 
 class KGroupBy(Kind):
     name = "GroupBy"
+    fresh_results = False     # yields the filled values themselves
 
     def draw_cfg(self, tape):
         return {"by": tape.choice(["default", "k", "kj", "merge-nest"], "group_by")}
@@ -684,6 +707,7 @@ class KGraph(Kind):
     """deprecated element with a reset method: reset clause only"""
     name = "Graph"
     has_model = False
+    fresh_results = False     # yields itself
 
     def draw_cfg(self, tape):
         return {"sort": bool(tape.draw(2, "sort")), "scale": tape.choice([None, None, 2], "scale"),
@@ -753,21 +777,35 @@ def gen_scenario(tape):
     return sc
 
 
-def do_compute(el, partial):
-    """('ok', results) or ('raise', exc)"""
+def take(r, touch):
+    """what the driver keeps of a result: with *touch*, a snapshot taken at receipt, after which the
+    result's context is updated in place (as the next lena element would do)"""
+    if not touch:
+        return r
+    snap = copy.deepcopy(r)
+    ctx = split_result(r)[1]
+    if ctx is not None:
+        ctx["downstream"] = {"touched": True}
+    return snap
+
+
+def do_compute(el, partial, touch=False):
+    """('ok', results) or ('raise', exc); results are consumed one by one"""
     method = getattr(el, "compute", None) or getattr(el, "request")
     try:
+        g = iter(method())
+        out = []
         if partial:
-            g = iter(method())
-            out = []
             try:
-                out.append(next(g))
+                out.append(take(next(g), touch))
             except StopIteration:
                 pass
             if hasattr(g, "close"):
                 g.close()
             return ("ok", out)
-        return ("ok", list(method()))
+        for r in g:
+            out.append(take(r, touch))
+        return ("ok", out)
     except Exception as e:  # noqa: BLE001
         return ("raise", e)
 
@@ -858,7 +896,7 @@ def run(tape):
                 res.fault("partial-compute-abandoned")
             if not hist:
                 res.fault("compute-on-empty")
-            outcome = do_compute(el, partial)
+            outcome = do_compute(el, partial, touch=kind.fresh_results)
             if outcome[0] == "raise" and exception_origin(outcome[1]) != "lena":
                 raise outcome[1]
             snap = snapshot(outcome)
@@ -883,7 +921,7 @@ def run(tape):
                 return res
             # 2. the fresh twin
             if twin is not None:
-                tout = do_compute(twin, partial)
+                tout = do_compute(twin, partial, touch=kind.fresh_results)
                 if tout[0] == "raise" and exception_origin(tout[1]) != "lena":
                     raise tout[1]
                 tsnap = snapshot(tout)
